@@ -176,6 +176,37 @@ theorem deny_step_eq (cs : CS) (hq : cs.b.closeQ = []) (p : Nat) (o a : List Nat
     simp only [step, e1, hq, List.length_nil, drain, poll]
     exact ⟨trivial, trivial, trivial, fun q => rfl⟩
 
+theorem poll2_q (b : ABL) (x : Nat) (h : b.closeQ = [] ∨ b.closeQ = [x]) : (poll (poll b).1).1.closeQ = [] := by
+  rcases h with h | h <;> simp [poll, h]
+
+/-- the race step, case by case: `changed` = the API call returned `true` -/
+theorem race_step_eq (cs : CS) (k p : Nat) (pd : Bool) (q : Nat) (o a : List Nat) :
+    let r := step cs (.raceDeny k p pd q o a)
+    (∀ x, r.1.b.enforce x = (denyPeer cs.b q).1.enforce x) ∧
+    ((denyPeer cs.b q).2.1 = true →
+      r.1.sw = (raceAny cs.sw k p (pd || (denyPeer cs.b q).1.enforce p) q o a).1 ∧
+      (r.2.evs = (raceAny cs.sw k p (pd || (denyPeer cs.b q).1.enforce p) q o a).2 ∨
+       r.2.evs = ((raceAny cs.sw k p (pd || (denyPeer cs.b q).1.enforce p) q o a).2).filter (fun e => !isListDecision e))) ∧
+    ((denyPeer cs.b q).2.1 = false →
+      r.1.sw = (resolveDial cs.sw k p (pd || (denyPeer cs.b q).1.enforce p)).1 ∧
+      (r.2.evs = (resolveDial cs.sw k p (pd || (denyPeer cs.b q).1.enforce p)).2 ∨
+       r.2.evs = ((resolveDial cs.sw k p (pd || (denyPeer cs.b q).1.enforce p)).2).filter (fun e => !isListDecision e))) := by
+  intro r
+  refine ⟨?_, ?_, ?_⟩
+  · intro x
+    show (poll (poll (denyPeer cs.b q).1).1).1.enforce x = _
+    rw [poll_enforce, poll_enforce]
+  · intro hc
+    simp only [r, step, hc, ↓reduceIte]
+    refine ⟨trivial, ?_⟩
+    cases (denyPeer cs.b q).1.enforce p <;> simp
+  · intro hc
+    simp only [r, step, hc, Bool.false_eq_true, ↓reduceIte]
+    refine ⟨trivial, ?_⟩
+    cases (denyPeer cs.b q).1.enforce p <;> simp
+
+theorem or_false_split {a b : Bool} (h : (a || b) = false) : b = false := by cases a <;> cases b <;> simp_all
+
 theorem step_Safe (cs : CS) (op : COp) (h : Safe cs) : Safe (step cs op).1 := by
   cases op with
   | sw op =>
@@ -204,6 +235,28 @@ theorem step_Safe (cs : CS) (op : COp) (h : Safe cs) : Safe (step cs op).1 := by
       intro e he
       rw [e1] at he
       rw [e4]; exact h.est_ok e he
+  | raceDeny k p pd q o a =>
+    obtain ⟨henf, hc, hu⟩ := race_step_eq cs k p pd q o a
+    obtain ⟨h1, h2, hother, hp⟩ := denyPeer_spec cs.b q
+    refine ⟨?_, ?_⟩
+    · intro e he
+      rw [henf]
+      cases hr : (denyPeer cs.b q).2.1 with
+      | true =>
+        rw [(hc hr).1] at he
+        rcases raceAny_est _ _ _ _ _ _ _ e he with ⟨hin, hne⟩ | ⟨hd, hpe⟩
+        · rw [hother _ hne]; exact h.est_ok e hin
+        · rw [hpe]; exact or_false_split hd
+      | false =>
+        rw [(hu hr).1] at he
+        rcases resolveDial_est_new _ _ _ _ e he with hin | ⟨hd, hpe⟩
+        · rw [(h2 hr).1]; exact h.est_ok e hin
+        · rw [hpe]; exact or_false_split hd
+    · show (poll (poll (denyPeer cs.b q).1).1).1.closeQ = []
+      apply poll2_q _ q
+      cases hr : (denyPeer cs.b q).2.1 with
+      | true => right; rw [h1 hr, h.q_empty]; rfl
+      | false => left; rw [(h2 hr).1]; exact h.q_empty
   | permit p =>
     obtain ⟨hmono, hq, _⟩ := permitPeer_spec cs.b p
     refine ⟨?_, ?_⟩
@@ -250,6 +303,56 @@ theorem existing_closed (cs : CS) (h : Safe cs) (p : Nat) (o a : List Nat) :
     have := hs.est_ok e he
     rw [hpe, hden] at this; cases this
 
+/-- events of a race step: a sublist (the probe's decision call may be missing) of the Swarm's -/
+theorem race_estPeers (cs : CS) (k p : Nat) (pd : Bool) (q : Nat) (o a : List Nat) (x : Nat)
+    (hx : x ∈ estPeers (step cs (.raceDeny k p pd q o a)).2.evs) :
+    x = p ∧ (denyPeer cs.b q).1.enforce p = false := by
+  obtain ⟨_, hc, hu⟩ := race_step_eq cs k p pd q o a
+  cases hr : (denyPeer cs.b q).2.1 with
+  | true =>
+    have hx' : x ∈ estPeers (raceAny cs.sw k p (pd || (denyPeer cs.b q).1.enforce p) q o a).2 := by
+      rcases (hc hr).2 with h | h <;> rw [h] at hx
+      · exact hx
+      · exact estPeers_filter_sub _ _ _ hx
+    obtain ⟨hd, hxp⟩ := estPeers_raceAny _ _ _ _ _ _ _ _ hx'
+    exact ⟨hxp, or_false_split hd⟩
+  | false =>
+    have hx' : x ∈ estPeers (resolveDial cs.sw k p (pd || (denyPeer cs.b q).1.enforce p)).2 := by
+      rcases (hu hr).2 with h | h <;> rw [h] at hx
+      · exact hx
+      · exact estPeers_filter_sub _ _ _ hx
+    obtain ⟨hd, hxp⟩ := estPeers_resolveDial _ _ _ _ _ hx'
+    exact ⟨hxp, or_false_split hd⟩
+
+/-- **The list change that races with a finished dial** (`block_peer(q)` / `disallow_peer(q)` called
+after the task of a pending dial has authenticated peer `p` and queued its report, before the Swarm
+polls the pool): the established-time check sees the NEW list, so nothing is reported established
+for a peer the new list denies — in particular not for `q` — every connection to `q` that existed is
+closed in the step (when the call took effect), and afterwards the Swarm holds no connection to `q`. -/
+theorem race_enforced (cs : CS) (h : Safe cs) (k p : Nat) (pd : Bool) (q : Nat) (o a : List Nat) :
+    let r := step cs (.raceDeny k p pd q o a)
+    (∀ x ∈ estPeers r.2.evs, r.1.b.enforce x = false) ∧
+    r.1.b.enforce q = true ∧
+    (∀ e ∈ r.1.sw.est, e.peer ≠ q) ∧
+    ((denyPeer cs.b q).2.1 = true → ∀ e ∈ cs.sw.est, e.peer = q → e.id ∈ closedIds r.2.evs) := by
+  intro r
+  obtain ⟨henf, hc, _⟩ := race_step_eq cs k p pd q o a
+  obtain ⟨_, _, _, hp⟩ := denyPeer_spec cs.b q
+  have hs := step_Safe cs (.raceDeny k p pd q o a) h
+  have hq : r.1.b.enforce q = true := by rw [henf]; exact hp
+  refine ⟨?_, hq, ?_, ?_⟩
+  · intro x hx
+    obtain ⟨hxp, hen⟩ := race_estPeers cs k p pd q o a x hx
+    rw [henf, hxp]; exact hen
+  · intro e he hpe
+    have := hs.est_ok e he
+    rw [hpe] at this
+    rw [hq] at this; cases this
+  · intro hr e he hpe
+    rcases (hc hr).2 with h' | h' <;> rw [h']
+    · exact raceAny_closed _ _ _ _ _ _ _ e he hpe
+    · rw [closedIds_filter]; exact raceAny_closed _ _ _ _ _ _ _ e he hpe
+
 /-- `unblock_peer(p)` / `allow_peer(p)`: afterwards `p` is permitted again -/
 theorem permit_permits (cs : CS) (p : Nat) : (step cs (.permit p)).1.b.enforce p = false := by
   show (poll (permitPeer cs.b p).1).1.enforce p = false
@@ -258,6 +361,7 @@ theorem permit_permits (cs : CS) (p : Nat) : (step cs (.permit p)).1.b.enforce p
 /-- what the Spec is given for a model step: the connections to `p` that must be seen closing -/
 def mustClose (cs : CS) : COp → List Nat
   | .deny p _ _ => if (denyPeer cs.b p).2.1 then (cs.sw.est.filter (·.peer == p)).map (·.id) else []
+  | .raceDeny _ _ _ q _ _ => if (denyPeer cs.b q).2.1 then (cs.sw.est.filter (·.peer == q)).map (·.id) else []
   | _ => []
 
 /-- **The Spec accepts the model**: on every step from a safe state, the executable property finds
@@ -291,10 +395,25 @@ theorem spec_accepts_model (cs : CS) (h : Safe cs) (op : COp) :
         | true => rw [(ht hr).2.1, List.append_nil, estPeers_disconnectAny] at hq; cases hq
         | false => rw [(hf hr).2.1] at hq; cases hq
       | permit p => cases hq
+      | raceDeny k p pd q' o a =>
+        have := (race_enforced cs h k p pd q' o a).1 q hq
+        rw [hd] at this; cases this
   have c3 : (mustClose cs op).all (closedIds (step cs op).2.evs).contains = true := by
     cases op with
     | sw op => rfl
     | permit p => rfl
+    | raceDeny k p pd q o a =>
+      simp only [mustClose]
+      cases hr : (denyPeer cs.b q).2.1 with
+      | false => rfl
+      | true =>
+        simp only [↓reduceIte]
+        apply List.all_eq_true.2
+        intro c hc
+        obtain ⟨e, he, rfl⟩ := List.mem_map.1 hc
+        obtain ⟨he1, he2⟩ := List.mem_filter.1 he
+        have := (race_enforced cs h k p pd q o a).2.2.2 hr e he1 (by simpa using he2)
+        exact List.contains_iff_mem.2 this
     | deny p o a =>
       simp only [mustClose]
       cases hr : (denyPeer cs.b p).2.1 with
@@ -327,5 +446,6 @@ end C53
 #print axioms C53.no_establish_while_denied
 #print axioms C53.safe
 #print axioms C53.existing_closed
+#print axioms C53.race_enforced
 #print axioms C53.permit_permits
 #print axioms C53.spec_accepts_model
